@@ -39,13 +39,14 @@ def gen_program(rnd):
         shape = (n,)
     kinds = set()
     nres = 0
+
+    def index(dim):
+        name = inp(rnd.randint(0, shape[dim] - 1))
+        idx_slots.append((len(inputs) - 1, shape[dim]))
+        return name
+
     for _ in range(rnd.randint(1, 8)):
         k = rnd.random()
-
-        def index(dim):
-            name = inp(rnd.randint(0, shape[dim] - 1))
-            idx_slots.append((len(inputs) - 1, shape[dim]))
-            return name
         if two_d:
             if k < 0.3:
                 lines.append("r%d = A[%s, %s] + 0" % (nres, index(0), index(1)))
@@ -79,6 +80,18 @@ def gen_program(rnd):
                 lines.append("A[%d] = %s" % (rnd.randint(0, shape[0] - 1), elem()))
                 lines.append("r%d = 0" % nres)
                 kinds.add("write-const-index")
+        nres += 1
+    if not two_d and rnd.random() < 0.35:
+        # the list an Array was built from, and a second Array built from the same list, stay independent
+        kinds.add("aliasing")
+        lines.append("L = [%s]" % ", ".join(elem() for _ in range(shape[0])))
+        lines.append("B = Array(L)")
+        lines.append("C = Array(L)")
+        lines.append("B[%s] = %s" % (index(0), elem()))
+        lines.append("L[0] = 99")
+        lines.append("r%d = C[%s] + 0" % (nres, index(0)))
+        nres += 1
+        lines.append("r%d = B[0] + C[%d] * 2 + 0" % (nres, shape[0] - 1))
         nres += 1
     if two_d:
         lines.append("final = [A[a][b] + 0 for a in range(%d) for b in range(%d)]" % shape)
